@@ -315,5 +315,355 @@ def PStep (s : (proxyImpl origin cache max).σ) (op : Op) : Prop :=
     Fo.abs ((proxyImpl origin cache max).step s op).1.1 = next (Fo.abs s.1) op ∧
     PQuiet Fo Cc max ((proxyImpl origin cache max).step s op).1)
 
+theorem proxy_enum (os : origin.σ) (cs : cache.σ) (b : ProxyBook) (a : Bytes) (l : Nat)
+    (hI : PInv Fo Cc max (os, cs, b)) : PStep Fo Cc max (os, cs, b) (.enum a l) := by
+  obtain ⟨hR, hC, hS⟩ := hI
+  obtain ⟨hoi, hO⟩ := ostep Fo os (.enum a l) hR trivial
+  have hsub : ∀ m, Fo.abs (origin.step os (.enum a l)).1 = m → Sub (Cc.abs cs) m → 
+      Sub (Cc.abs cs) (Fo.abs (origin.step os (.enum a l)).1) := fun m e h => e ▸ h
+  unfold PStep PInv PQuiet
+  simp only [proxyImpl]
+  rcases hO with ⟨ho, ha, hq⟩ | ⟨ho, ha, hq⟩
+  · exact mk_exact ⟨hoi, hC, hsub _ ha hS⟩ ho ha (fun q => ⟨hq q.1, q.2⟩)
+  · refine mk_err ⟨hoi, hC, ?_⟩ ho ha (fun q => hq q.1)
+    rcases ha with ha | ha <;> exact hsub _ ha hS
+
+theorem proxy_fetch (os : origin.σ) (cs : cache.σ) (b : ProxyBook) (k : Bytes)
+    (hI : PInv Fo Cc max (os, cs, b)) : PStep Fo Cc max (os, cs, b) (.fetch k) := by
+  obtain ⟨hR, hC, hS⟩ := hI
+  have hGo := Fo.good os hR
+  obtain ⟨hci, hcs, hcq⟩ := cstep Cc cs (.fetch k) hC trivial
+  have hcf := fun v => Cc.fetch_ok cs k v hC
+  obtain ⟨hoi, hO⟩ := ostep Fo os (.fetch k) hR trivial
+  unfold PStep PInv PQuiet
+  simp only [proxyImpl]
+  generalize cache.step cs (.fetch k) = pc at hci hcs hcq hcf
+  obtain ⟨cs1, oc⟩ := pc
+  simp only [grow] at hci hcs hcq hcf
+  have hS1 : Sub (Cc.abs cs1) (Fo.abs os) := hcs.trans hS
+  cases oc
+  case bytes v =>
+    have hgo := hS k v (hcf v rfl)
+    simp only
+    obtain ⟨ht1, ht2, ht3⟩ := ftouch_ok Cc max cs1 b k v.length hci
+    generalize proxyTouch cache max cs1 b k v.length = pt at ht1 ht2 ht3
+    obtain ⟨cs2, b2⟩ := pt
+    refine mk_exact ⟨hR, ht1, ht2.trans hS1⟩ ?_ rfl (fun q => ⟨q.1, ht3 (hcq q.2).2⟩)
+    simp only [out, hgo]
+  all_goals
+    simp only
+    generalize origin.step os (.fetch k) = po at hoi hO
+    obtain ⟨os1, oo⟩ := po
+    simp only at hoi hO
+    rcases hO with ⟨ho, ha, hq⟩ | ⟨ho, ha, hq⟩
+    · have hS2 : Sub (Cc.abs cs1) (Fo.abs os1) := by rw [ha]; exact hS1
+      cases hgo : SMap.get (Fo.abs os) k with
+      | none =>
+        simp only [out, hgo] at ho; subst ho
+        simp only
+        refine mk_exact ⟨hoi, hci, hS2⟩ ?_ ha (fun q => ⟨hq q.1, (hcq q.2).2⟩)
+        simp only [out, hgo]
+      | some v =>
+        simp only [out, hgo] at ho; subst ho
+        simp only
+        have hwk : (Op.recv k v).WK content := hGo.2 k v hgo
+        obtain ⟨hri, hrs, hrq⟩ := cstep Cc cs1 (.recv k v) hci hwk
+        have hS3 : Sub (Cc.abs (cache.step cs1 (.recv k v)).1) (Fo.abs os1) := by
+          rw [ha]; exact hrs.trans (sub_ins_of_get hS1 hgo)
+        clear hrs
+        generalize cache.step cs1 (.recv k v) = pr at hri hS3 hrq
+        obtain ⟨cs2, orr⟩ := pr
+        simp only at hri hS3 hrq
+        cases orr
+        case sized n =>
+          simp only
+          obtain ⟨ht1, ht2, ht3⟩ := ftouch_ok Cc max cs2 b k v.length hri
+          generalize proxyTouch cache max cs2 b k v.length = pt at ht1 ht2 ht3
+          obtain ⟨cs3, b3⟩ := pt
+          refine mk_exact ⟨hoi, ht1, ht2.trans hS3⟩ ?_ ha
+            (fun q => ⟨hq q.1, ht3 (hrq (hcq q.2).2).2⟩)
+          simp only [out, hgo]
+        all_goals
+          simp only
+          refine mk_exact ⟨hoi, hri, hS3⟩ ?_ ha (fun q => ⟨hq q.1, (hrq (hcq q.2).2).2⟩)
+          simp only [out, hgo]
+    · subst ho
+      simp only
+      refine mk_err ⟨hoi, hci, ?_⟩ rfl ha (fun q => hq q.1)
+      rcases ha with ha | ha <;> (rw [ha]; exact hS1)
+
+theorem proxy_stat (os : origin.σ) (cs : cache.σ) (b : ProxyBook) (k : Bytes)
+    (hI : PInv Fo Cc max (os, cs, b)) : PStep Fo Cc max (os, cs, b) (.stat k) := by
+  obtain ⟨hR, hC, hS⟩ := hI
+  obtain ⟨hci, hcs, hcq⟩ := cstep Cc cs (.stat k) hC trivial
+  have hcf := fun n => Cc.stat_ok cs k n hC
+  obtain ⟨hoi, hO⟩ := ostep Fo os (.stat k) hR trivial
+  unfold PStep PInv PQuiet
+  simp only [proxyImpl]
+  generalize cache.step cs (.stat k) = pc at hci hcs hcq hcf
+  obtain ⟨cs1, oc⟩ := pc
+  simp only [grow] at hci hcs hcq hcf
+  have hS1 : Sub (Cc.abs cs1) (Fo.abs os) := hcs.trans hS
+  cases oc
+  case sized n =>
+    obtain ⟨v, hgc, hn⟩ := hcf n rfl
+    subst hn
+    have hgo := hS k v hgc
+    simp only
+    obtain ⟨ht1, ht2, ht3⟩ := ftouch_ok Cc max cs1 b k v.length hci
+    generalize proxyTouch cache max cs1 b k v.length = pt at ht1 ht2 ht3
+    obtain ⟨cs2, b2⟩ := pt
+    refine mk_exact ⟨hR, ht1, ht2.trans hS1⟩ ?_ rfl (fun q => ⟨q.1, ht3 (hcq q.2).2⟩)
+    simp only [out, hgo]
+  case notExist =>
+    simp only
+    generalize origin.step os (.stat k) = po at hoi hO
+    obtain ⟨os1, oo⟩ := po
+    simp only at hoi hO
+    rcases hO with ⟨ho, ha, hq⟩ | ⟨ho, ha, hq⟩
+    · have hS2 : Sub (Cc.abs cs1) (Fo.abs os1) := by rw [ha]; exact hS1
+      cases hgo : SMap.get (Fo.abs os) k with
+      | none =>
+        simp only [out, hgo] at ho; subst ho
+        simp only
+        refine mk_exact ⟨hoi, hci, hS2⟩ ?_ ha (fun q => ⟨hq q.1, (hcq q.2).2⟩)
+        simp only [out, hgo]
+      | some v =>
+        simp only [out, hgo] at ho; subst ho
+        simp only
+        obtain ⟨ht1, ht2, ht3⟩ := ftouch_ok Cc max cs1 b k v.length hci
+        generalize proxyTouch cache max cs1 b k v.length = pt at ht1 ht2 ht3
+        obtain ⟨cs2, b2⟩ := pt
+        refine mk_exact ⟨hoi, ht1, ht2.trans hS2⟩ ?_ ha (fun q => ⟨hq q.1, ht3 (hcq q.2).2⟩)
+        simp only [out, hgo]
+    · subst ho
+      simp only
+      refine mk_err ⟨hoi, hci, ?_⟩ rfl ha (fun q => hq q.1)
+      rcases ha with ha | ha <;> (rw [ha]; exact hS1)
+  all_goals
+    simp only
+    refine mk_err ⟨hR, hci, hS1⟩ rfl (Or.inl rfl) (fun q => ?_)
+    have := (hcq q.2).1
+    simp only [out] at this
+    split at this <;> cases this
+
+theorem proxy_recv (os : origin.σ) (cs : cache.σ) (b : ProxyBook) (k v : Bytes)
+    (hop : (Op.recv k v).WK content)
+    (hI : PInv Fo Cc max (os, cs, b)) : PStep Fo Cc max (os, cs, b) (.recv k v) := by
+  obtain ⟨hR, hC, hS⟩ := hI
+  have hGo := Fo.good os hR
+  obtain ⟨hci, hcs, hcq⟩ := cstep Cc cs (.recv k v) hC hop
+  obtain ⟨hoi, hO⟩ := ostep Fo os (.recv k v) hR hop
+  have hS0 : Sub (Cc.abs cs) (next (Fo.abs os) (.recv k v)) :=
+    (sub_ins_self (Cc.good cs hC) k v hop).trans (sub_ins_next hGo hS k v hop)
+  have hS1 : Sub (Cc.abs (cache.step cs (.recv k v)).1) (next (Fo.abs os) (.recv k v)) :=
+    hcs.trans (sub_ins_next hGo hS k v hop)
+  clear hcs
+  unfold PStep PInv PQuiet
+  simp only [proxyImpl]
+  generalize origin.step os (.recv k v) = po at hoi hO
+  obtain ⟨os1, oo⟩ := po
+  simp only at hoi hO
+  rcases hO with ⟨ho, ha, hq⟩ | ⟨ho, ha, hq⟩
+  · simp only [out] at ho; subst ho
+    simp only
+    generalize cache.step cs (.recv k v) = pr at hci hcq hS1
+    obtain ⟨cs1, orr⟩ := pr
+    simp only at hci hcq hS1
+    cases orr
+    case sized n =>
+      simp only
+      obtain ⟨ht1, ht2, ht3⟩ := ftouch_ok Cc max cs1 b k v.length hci
+      generalize proxyTouch cache max cs1 b k v.length = pt at ht1 ht2 ht3
+      obtain ⟨cs2, b2⟩ := pt
+      exact mk_exact ⟨hoi, ht1, by rw [ha]; exact ht2.trans hS1⟩ rfl ha
+        (fun q => ⟨hq q.1, ht3 (hcq q.2).2⟩)
+    all_goals
+      simp only
+      exact mk_exact ⟨hoi, hci, by rw [ha]; exact hS1⟩ rfl ha (fun q => ⟨hq q.1, (hcq q.2).2⟩)
+  · subst ho
+    simp only
+    refine mk_err ⟨hoi, hC, ?_⟩ rfl ha (fun q => hq q.1)
+    rcases ha with ha | ha
+    · rw [ha]; exact hS
+    · rw [ha]; exact hS0
+
+/-- remove: the only step that needs more than the cache contract – either the cache's removal took
+effect, or the origin's did not -/
+theorem proxy_rm (os : origin.σ) (cs : cache.σ) (b : ProxyBook) (k : Bytes)
+    (hrm : Sub (Cc.abs (cache.step cs (.rm k)).1) (del k (Cc.abs cs)) ∨
+      Fo.abs (origin.step os (.rm k)).1 = Fo.abs os)
+    (hI : PInv Fo Cc max (os, cs, b)) : PStep Fo Cc max (os, cs, b) (.rm k) := by
+  obtain ⟨hR, hC, hS⟩ := hI
+  have hGo := Fo.good os hR
+  have hGc := Cc.good cs hC
+  obtain ⟨hci, hcs, hcq⟩ := cstep Cc cs (.rm k) hC trivial
+  have hcr := Cc.rm_ok cs k hC
+  obtain ⟨hoi, hO⟩ := ostep Fo os (.rm k) hR trivial
+  have hdd : Sub (del k (Cc.abs cs)) (del k (Fo.abs os)) := sub_del_del k hGc.1 hGo.1 hS
+  have hd : Sub (del k (Cc.abs cs)) (Fo.abs os) := (sub_del_self k hGc.1).trans hS
+  unfold PStep PInv PQuiet
+  simp only [proxyImpl]
+  generalize origin.step os (.rm k) = po at hoi hO hrm
+  obtain ⟨os1, oo⟩ := po
+  generalize cache.step cs (.rm k) = pr at hci hcs hcq hcr hrm
+  obtain ⟨cs1, orr⟩ := pr
+  simp only [grow, next, out] at hoi hO hci hcs hcq hcr hrm
+  have hS1 : Sub (Cc.abs cs1) (Fo.abs os) := hcs.trans hS
+  cases orr
+  case ok =>
+    have hs := hcr rfl
+    rcases hO with ⟨ho, ha, hq⟩ | ⟨ho, ha, hq⟩
+    · subst ho
+      simp only
+      exact mk_exact ⟨hoi, hci, by rw [ha]; exact hs.trans hdd⟩ rfl ha
+        (fun q => ⟨hq q.1, (hcq q.2).2⟩)
+    · subst ho
+      simp only
+      refine mk_err ⟨hoi, hci, ?_⟩ rfl ha (fun q => hq q.1)
+      rcases ha with ha | ha
+      · rw [ha]; exact hs.trans hd
+      · rw [ha]; exact hs.trans hdd
+  all_goals
+    have hnq : ¬ (Fo.Quiet os ∧ Cc.Quiet cs) := fun q => by
+      have := (hcq q.2).1
+      cases this
+    have hsub : Sub (Cc.abs cs1) (Fo.abs os1) := by
+      rcases hrm with h | h
+      · rcases hO with ⟨_, ha, _⟩ | ⟨_, ha | ha, _⟩
+        · rw [ha]; exact h.trans hdd
+        · rw [ha]; exact hS1
+        · rw [ha]; exact h.trans hdd
+      · rw [h]; exact hS1
+    have ha : Fo.abs os1 = Fo.abs os ∨ Fo.abs os1 = next (Fo.abs os) (.rm k) := by
+      rcases hO with ⟨_, ha, _⟩ | ⟨_, ha, _⟩
+      · exact Or.inr ha
+      · exact ha
+    rcases hO with ⟨ho, _, _⟩ | ⟨ho, _, _⟩ <;> subst ho <;> simp only <;>
+      exact mk_err ⟨hoi, hci, hsub⟩ rfl ha hnq
+
+/-- the one situation a proxy step does not survive is excluded: on `.rm k`, either the cache's
+removal took effect (whatever it answered) or the origin's did not -/
+def RmEffective (s : (proxyImpl origin cache max).σ) (op : Op) : Prop :=
+  ∀ k, op = .rm k →
+    Sub (Cc.abs (cache.step s.2.1 (.rm k)).1) (del k (Cc.abs s.2.1)) ∨
+    Fo.abs (origin.step s.1 (.rm k)).1 = Fo.abs s.1
+
+/-- every proxycache step, with any failures in origin and cache, keeps the invariant, is exact or
+answers `.err` leaving the before- or after-contents, and is exact from quiet states – provided
+`RmEffective` -/
+theorem proxy_fstep (s : (proxyImpl origin cache max).σ) (op : Op) (hop : op.WK content)
+    (hI : PInv Fo Cc max s) (hrm : RmEffective Fo Cc max s op) : PStep Fo Cc max s op := by
+  obtain ⟨os, cs, b⟩ := s
+  cases op with
+  | recv k v => exact proxy_recv Fo Cc max os cs b k v hop hI
+  | fetch k => exact proxy_fetch Fo Cc max os cs b k hI
+  | stat k => exact proxy_stat Fo Cc max os cs b k hI
+  | enum a l => exact proxy_enum Fo Cc max os cs b a l hI
+  | rm k => exact proxy_rm Fo Cc max os cs b k (hrm k rfl) hI
+
+theorem rmEffective_of_rmSure (hrm : Cc.RmSure) (s : (proxyImpl origin cache max).σ) (op : Op)
+    (hI : PInv Fo Cc max s) : RmEffective Fo Cc max s op :=
+  fun k _ => Or.inl (hrm s.2.1 k hI.2.1)
+
 end Proxy
+
+/-- proxycache over an origin that may fail and a cache that may fail is fault-tolerant, PROVIDED the
+cache's remove calls always take effect (`RmSure`: they may lose their answer, not their effect).
+Without that proviso the statement is false: `proxy_failed_cache_remove_counterexample`. -/
+def proxyFRefinesRmSure {content : Bytes → Bytes} {origin cache : Impl} (Fo : FRefines content origin)
+    (Cc : FCaches content cache) (hrm : Cc.RmSure) (max : Nat) :
+    FRefines content (proxyImpl origin cache max) where
+  abs := fun s => Fo.abs s.1
+  Inv := PInv Fo Cc max
+  Quiet := PQuiet Fo Cc max
+  init_inv := ⟨Fo.init_inv, Cc.init_inv, by
+    show Sub (Cc.abs cache.init) _
+    rw [Cc.init_abs]; intro k v h; simp [SMap.get] at h⟩
+  init_abs := Fo.init_abs
+  good := fun s h => Fo.good s.1 h.1
+  step_ok := fun s op h hop =>
+    let p := proxy_fstep Fo Cc max s op hop h (rmEffective_of_rmSure Fo Cc max hrm s op h)
+    ⟨p.1, p.2.1⟩
+  quiet_step := fun s op h hq hop =>
+    (proxy_fstep Fo Cc max s op hop h (rmEffective_of_rmSure Fo Cc max hrm s op h)).2.2 hq
+
+/-- instance: a failing memory origin, and the evicting memory cache with lost answers -/
+example (content : Bytes → Bytes) (s1 s2 : List Fault) (hs : ∀ f ∈ s2, f ≠ Fault.before)
+    (cmax max : Nat) :
+    FRefines content (proxyImpl (faultLeaf memImpl s1) (faultLeaf (memCacheImpl cmax) s2) max) :=
+  proxyFRefinesRmSure (faultLeafF (memRefines content) s1)
+    (faultLeafFCachesNB (memCacheCaches content cmax) s2 hs)
+    (faultLeafFCachesNB_rmSure (memCacheCaches content cmax) s2 hs) max
+
+/-- the cache contract itself holds for the evicting memory cache under ANY failure schedule -/
+example (content : Bytes → Bytes) (s2 : List Fault) (cmax : Nat) :
+    FCaches content (faultLeaf (memCacheImpl cmax) s2) :=
+  faultLeafFCachesAny (memCacheCaches content cmax) s2
+
+/-! ### the finding: a cache removal that fails without effect while the origin's succeeds -/
+
+/-- no map both holds a blob and enumerates as empty -/
+theorem no_map_fetch_enum (m : SMap Bytes) (k v : Bytes) (hk : k ≠ []) (n : Nat)
+    (hf : out m (.fetch k) = .bytes v) : out m (.enum [] (n + 1)) ≠ .refs [] := by
+  intro he
+  have hmem := get_some_mem (out_fetch_bytes hf)
+  have hlt : ltB [] k = true := by
+    cases k with
+    | nil => exact absurd rfl hk
+    | cons _ _ => rfl
+  have hmem' : (k, v) ∈ m.filter (fun p => ltB [] p.1) := List.mem_filter.mpr ⟨hmem, hlt⟩
+  simp only [out, enumOf, sizes] at he
+  injection he with he
+  cases hfl : m.filter (fun p => ltB [] p.1) with
+  | nil => rw [hfl] at hmem'; cases hmem'
+  | cons a l => rw [hfl] at he; simp at he
+
+/-- the proxy of the counterexample: memory origin, memory cache whose second call fails without
+effect, room for 100 bytes -/
+def badProxy : Impl := proxyImpl memImpl (faultLeaf memImpl [Fault.none, Fault.before]) 100
+
+/-- RemoveBlobs (proxycache.go:243) runs the cache's and the origin's removal in parallel and
+returns the first error.  History: receive blob `[1]`; remove it, where the cache's removal fails
+without effect (the cache's 2nd call) and the origin's succeeds: the caller sees `.err`.  From then
+on, with no failure pending anywhere, the proxy serves the blob on Fetch and Stat (cache hits) but
+does not enumerate it (Enumerate asks the origin only) – no map, neither the before- nor the
+after-state of the failed remove nor any other, answers like that. -/
+theorem proxy_failed_cache_remove_counterexample :
+    badProxy.run badProxy.init
+        [.recv [1] [7], .rm [1], .fetch [1], .stat [1], .enum [] 10, .fetch [1]] =
+      [.sized 1, .err, .bytes [7], .sized 1, .refs [], .bytes [7]] ∧
+    -- after the failed remove: the origin has dropped the blob, the cache still holds it, and the
+    -- cache's failure schedule is used up
+    (badProxy.runState badProxy.init [.recv [1] [7], .rm [1]]).1 = [] ∧
+    (badProxy.runState badProxy.init [.recv [1] [7], .rm [1]]).2.1 = ([([1], [7])], []) ∧
+    -- no reference map gives the later answers
+    (∀ m : SMap Bytes, ¬ (out m (.fetch [1]) = .bytes [7] ∧ out m (.enum [] 10) = .refs [])) :=
+  ⟨by decide, rfl, rfl, fun m h => no_map_fetch_enum m [1] [7] (by decide) 9 h.1 h.2⟩
+
+/-- consequently `badProxy` is not fault-tolerant under ANY abstraction function and invariant, as
+soon as "the cache's failure schedule is used up" counts as quiet (the origin never fails) -/
+theorem proxy_failed_cache_remove_not_FRefines (content : Bytes → Bytes) (hc : content [1] = [7])
+    (F : FRefines content badProxy) (hQ : ∀ s : badProxy.σ, s.2.1.2 = [] → F.Quiet s) : False := by
+  have hops : ∀ op ∈ [Op.recv [1] [7], .rm [1]], op.WK content := by
+    intro op h
+    simp only [List.mem_cons, List.not_mem_nil, or_false] at h
+    rcases h with rfl | rfl
+    · exact ⟨hc.symm, by decide⟩
+    · trivial
+  have hops2 : ∀ op ∈ [Op.fetch [1], .enum [] 10], op.WK content := by
+    intro op h
+    simp only [List.mem_cons, List.not_mem_nil, or_false] at h
+    rcases h with rfl | rfl <;> trivial
+  have hinv := F.reach_inv badProxy.init F.init_inv _ hops
+  have hq := hQ (badProxy.runState badProxy.init [.recv [1] [7], .rm [1]]) rfl
+  have hr := F.recovers _ hinv hq _ hops2
+  have hl : badProxy.run (badProxy.runState badProxy.init [.recv [1] [7], .rm [1]])
+      [.fetch [1], .enum [] 10] = [.bytes [7], .refs []] := by decide
+  rw [hl] at hr
+  simp only [run, next] at hr
+  injection hr with h1 h2
+  injection h2 with h2 _
+  exact no_map_fetch_enum _ [1] [7] (by decide) 9 h1.symm h2.symm
+
 end Pk.Stores
